@@ -428,6 +428,67 @@ func (cs *Case) schurCheck(routine, tag string, a, t, z *ref.M, wr, wi []float64
 	} else {
 		// An orthogonal similarity preserves the Frobenius norm.
 		ok = cs.band(routine, tag, "schur-norm-preserved", math.Abs(ts.NormFro()-scale), fn*eps*scale, nil) && ok
+		ok = cs.similarityInvariants(routine, tag, a, t) && ok
+	}
+	return ok
+}
+
+// similarityInvariants judges a matrix t that must be an orthogonal
+// similarity transform Zᵀ (A + E) Z of a, ||E|| = O(n u ||A||), when Z is not
+// available, by invariants that depend on the whole of t (not only on its
+// diagonal blocks, as the traces of powers of a quasi-triangular matrix do):
+// the Frobenius norm of the square, the departure from normality
+// ||TᵀT - TTᵀ||_F, and the singular values (reference Jacobi SVD, n <= 110, once per logical input).
+// A row or column block left untransformed keeps ||T||_F but not these.
+func (cs *Case) similarityInvariants(routine, tag string, a, t *ref.M) bool {
+	n := a.R
+	if n == 0 {
+		return true
+	}
+	s := pow2Scale(a.MaxAbs())
+	as, ts := scaled(a, s), scaled(t, s)
+	scale := as.NormFro()
+	fn := float64(n)
+	// Identical (a, t) pairs of one case are judged once.
+	hk := fnv.New64a()
+	var b8 [8]byte
+	for _, arr := range [][]float64{a.D, t.D} {
+		for _, v := range arr {
+			binary.LittleEndian.PutUint64(b8[:], math.Float64bits(v))
+			hk.Write(b8[:])
+		}
+	}
+	if cs.beSeen == nil {
+		cs.beSeen = map[uint64]bool{}
+	}
+	key := hk.Sum64() ^ 0x5bd1e995
+	if cs.beSeen[key] {
+		return true
+	}
+	cs.beSeen[key] = true
+	sq := func(m *ref.M) float64 { return ref.Mul(m, m).NormFro() }
+	comm := func(m *ref.M) float64 { return ref.Sub(ref.Mul(m.T(), m), ref.Mul(m, m.T())).NormFro() }
+	ok := cs.band(routine, tag, "similarity-norm-of-square", math.Abs(sq(ts)-sq(as)), fn*eps*scale*scale, nil)
+	ok = cs.band(routine, tag, "similarity-departure-from-normality", math.Abs(comm(ts)-comm(as)), fn*eps*scale*scale, nil) && ok
+	// The reference SVD is the expensive invariant: at most one evaluation
+	// per logical input (the first result judged, n <= 110), with the singular
+	// values of the input cached.
+	if n <= 110 && cs.svChecks < 1 {
+		cs.svChecks++
+		ha := fnv.New64a()
+		for _, v := range a.D {
+			binary.LittleEndian.PutUint64(b8[:], math.Float64bits(v))
+			ha.Write(b8[:])
+		}
+		if cs.svCache == nil {
+			cs.svCache = map[uint64][]float64{}
+		}
+		sa, have := cs.svCache[ha.Sum64()]
+		if !have {
+			sa = ref.SingularValues(as)
+			cs.svCache[ha.Sum64()] = sa
+		}
+		ok = cs.band(routine, tag, "similarity-singular-values", maxDiffVec(ref.SingularValues(ts), sa), fn*eps*scale, nil) && ok
 	}
 	return ok
 }
@@ -678,6 +739,9 @@ func (h *H) checkLahqrLaqr04(id string, idx, n int, cls string) {
 					} else {
 						tb := subMat(t, ilo, ihi+1, ilo, ihi+1)
 						good = cs.schurCheck(rname, tag, blk, tb, nil, wr[ilo:ihi+1], wi[ilo:ihi+1]) && good
+						// wantt: the rows and columns outside the window are
+						// transformed as well.
+						good = cs.similarityInvariants(rname, tag, hm, t) && good
 					}
 				}
 				if wantz && !(iloz == 0 && ihiz == n-1) {
